@@ -413,6 +413,42 @@ def counter(locked):
 V['v16-distributor-counter-map-written-without-its-mutex'] = counter(False)
 B['b11-distributor-counter-map-under-its-own-mutex'] = counter(True)
 
+V['v17-pool-handed-to-a-function-value'] = [(DIST, '''	rootCompatibilityCheckDisabled bool
+}''', '''	rootCompatibilityCheckDisabled bool
+
+	// OnValidate, if set, is told which pool a chain is about to be validated against.
+	OnValidate func(*x509util.PEMCertPool)
+}'''), (DIST, '''		vOpts := ctfe.NewCertValidationOpts(d.rootPool, time.Time{}''', '''		if d.OnValidate != nil {
+			d.OnValidate(d.rootPool)
+		}
+		vOpts := ctfe.NewCertValidationOpts(d.rootPool, time.Time{}''')]
+
+def each(asyncly):
+    body = '\t\tgo f(k)\n' if asyncly else '\t\tf(k)\n'
+    return [('ctpolicy/ctpolicy.go', '''	unProcessedWeights := make(map[string]float32)
+	for logURL, w := range group.LogWeights {
+		unProcessedWeights[logURL] = w
+	}
+''', '''	unProcessedWeights := make(map[string]float32)
+	var fill sync.Mutex
+	weights := group.LogWeights
+	eachLog(group.LogURLs, func(logURL string) {
+		fill.Lock()
+		defer fill.Unlock()
+		if w, ok := weights[logURL]; ok {
+			unProcessedWeights[logURL] = w
+		}
+	})
+'''), ('ctpolicy/ctpolicy.go', '''// SetLogWeight tries setting''', '''// eachLog calls f for every Log of the set.
+func eachLog(urls map[string]bool, f func(string)) {
+	for k := range urls {
+''' + body + '''	}
+}
+
+// SetLogWeight tries setting''')]
+V['v18-weights-captured-by-literal-run-on-goroutines'] = each(True)
+B['b12-weights-captured-by-literal-called-synchronously'] = each(False)
+
 def build(name, edits, kind):
     if os.path.exists(WORK): shutil.rmtree(WORK)
     os.makedirs(WORK)
